@@ -366,6 +366,10 @@ class FrameOb(Obligation):
             if not (name == "sqllineage" or name.startswith("sqllineage.")) or mod is None:
                 continue
             for k, v in vars(mod).items():
+                if callable(v) and hasattr(v, "cache_info"):
+                    # a memoised function (functools.lru_cache / cache): its memo is state that outlives a run
+                    out["%s.%s(memo)" % (name, k)] = (id(v), repr(v.cache_info().currsize))
+                    continue
                 if k.startswith("__") or isinstance(v, type(sys)) or callable(v) and not isinstance(v, (dict, list, set)):
                     # classes: their mutable class attributes
                     if isinstance(v, type) and getattr(v, "__module__", "").startswith("sqllineage"):
@@ -400,7 +404,10 @@ class FrameOb(Obligation):
                 with SQLLineageConfig(TSQL_NO_SEMICOLON=True):
                     dump_runner(sc.runner(names, tsql=True))
             else:
-                run(sc, names, prov)
+                # every public accessor takes part: summaries, column paths, both exports, the text summary
+                lr = sc.runner(names, provider=prov) if prov is not None else sc.runner(names)
+                dump_runner(lr)
+                lr.to_cytoscape(), lr.to_cytoscape("column"), str(lr)
             if TWIN["on"]:
                 TWIN["n"] += 1
                 sqllineage.twin_probe_state.append(1)
@@ -443,8 +450,10 @@ changed = []
 def audit():
     after = snapshot()
     return [k for k in after if before.get(k) != after[k]]
-LineageRunner(ANSI, metadata_provider=DummyMetaDataProvider({"s.ta": ["ca", "cb"]})).get_column_lineage(); changed += audit()
-LineageRunner(ANSI).get_column_lineage(); changed += audit()
+def every_accessor(lr):
+    lr.source_tables, lr.target_tables, lr.intermediate_tables, lr.get_column_lineage(), lr.to_cytoscape(), lr.to_cytoscape("column"), str(lr)
+every_accessor(LineageRunner(ANSI, metadata_provider=DummyMetaDataProvider({"s.ta": ["ca", "cb"]}))); changed += audit()
+every_accessor(LineageRunner(ANSI)); changed += audit()
 LineageRunner(TSQL.replace("\n", ";\n"), dialect="tsql").get_column_lineage(); changed += audit()
 with SQLLineageConfig(TSQL_NO_SEMICOLON=True):
     LineageRunner(TSQL, dialect="tsql").get_column_lineage()
